@@ -38,3 +38,20 @@ PROPERTIES = {
 NOT_APPLICABLE = {}
 
 BASELINE_CMD = "cd /repo && /venv/bin/python -m pytest -ra -q -p no:cacheprovider --timeout=900 --continue-on-collection-errors"
+
+
+# property fragments written alongside their contract modules: contracts/props_<anything>.py with a PROPERTIES dict
+import glob as _glob
+import importlib as _importlib
+import os as _os
+
+for _f in sorted(_glob.glob(_os.path.join(_os.path.dirname(__file__), "props_*.py"))):
+    _m = _importlib.import_module("contracts." + _os.path.basename(_f)[:-3])
+    for _k, _v in _m.PROPERTIES.items():
+        if _k in PROPERTIES:
+            PROPERTIES[_k]["modules"] = list(dict.fromkeys(PROPERTIES[_k]["modules"] + _v.get("modules", [])))
+            for _fld in ("assumptions", "not_reached", "bounded"):
+                PROPERTIES[_k][_fld] = list(PROPERTIES[_k].get(_fld, [])) + list(_v.get(_fld, []))
+        else:
+            PROPERTIES[_k] = _v
+    NOT_APPLICABLE.update(getattr(_m, "NOT_APPLICABLE", {}))
